@@ -3,6 +3,7 @@ import Rare.Props.C10
 import Rare.Proofs.C09Utf8Char
 import Rare.Proofs.C09FuelStd
 import Rare.Proofs.C09Frag
+import Rare.Proofs.C09Lookup
 import Rare.Gen.Tables
 /-!
 Property C09 – template syntax: literals, escapes, quotes and nesting parse as documented.
@@ -203,6 +204,70 @@ theorem print_compile_opt_agrees (reg : Registry) (fn : List Char → List Bytes
   obtain ⟨s0, h0, r0⟩ := Rare.C10.optimize_sound reg (printTop σ e) s1 [] h1
   exact ⟨s1, s0, h1, h0, fun ctx => (r0 ctx).symm⟩
 
+
+/-! ### "A lone word or integer is a key/group lookup" -/
+
+/-- **What an integer is.**  `strconv.Atoi` as `stageSimpleVariable` uses it (the model's `atoi`) accepts exactly
+    the decimal integer literals of `Spec/C09Lookup.lean` – optional `+`/`-`, one or more ASCII digits (leading
+    zeros allowed), value within int64 – for ALL byte strings: `{007}`, `{+1}`, `{-1}`, `{-0}` are group
+    references; `{1e3}`, `{0x10}`, `{1_0}`, `{9223372036854775808}`, `{٣}`, `{-}`, `{+}` are key look-ups. -/
+theorem int_literal_spec (b : Bytes) (v : Int) : atoi b = some v ↔ IntLit b v :=
+  atoi_iff_intLit b v
+
+/-- **The lone-argument rule, general form.**  A statement whose body (any balanced, backslash-free text:
+    `Inner`) splits into exactly ONE argument `a` – a bare word, a quoted string, even a braced group like
+    `{{0}}` – compiles without errors, for every registry, optimiser on or off, to ONE stage; evaluated in any
+    context it answers `GetMatch(v)` when `a` is the integer literal `v` and `GetKey(a)` when `a` is not an
+    integer literal.  (The optimiser never folds it: both look-ups touch the context.) -/
+theorem lone_argument_lookup (reg : Registry) (opt : Bool) (body a : List Char) (hi : Inner body)
+    (hs : splitArgs body = [a]) :
+    ∃ st, compile reg opt ('{' :: (body ++ ['}'])) = .ok ([st], []) ∧
+      ∀ ctx, (∃ v, IntLit (utf8 a) v ∧ (buildKey [st]).run ctx = .ok (ctx.getMatch v)) ∨
+             ((∀ v, ¬ IntLit (utf8 a) v) ∧ (buildKey [st]).run ctx = .ok (ctx.getKey (utf8 a))) := by
+  refine ⟨stageSimpleVariable a, compileF_lone _ reg opt hi a hs, fun ctx => ?_⟩
+  rw [run_simpleVariable]
+  cases h : atoi (utf8 a) with
+  | some v => exact Or.inl ⟨v, intLit_of_atoi h, rfl⟩
+  | none => exact Or.inr ⟨(atoi_none_iff _).mp h, rfl⟩
+
+/-- **A lone bare word** `{ w }` (any Unicode white space around it): group `v` if `w` is the integer literal
+    `v`, key `w` otherwise. -/
+theorem lone_word_lookup (reg : Registry) (opt : Bool) (lead w trail : List Char)
+    (hl : allSpace lead = true) (hw : bare w = true) (ht : allSpace trail = true) :
+    ∃ st, compile reg opt ('{' :: (lead ++ w ++ trail ++ ['}'])) = .ok ([st], []) ∧
+      ∀ ctx, (∃ v, IntLit (utf8 w) v ∧ (buildKey [st]).run ctx = .ok (ctx.getMatch v)) ∨
+             ((∀ v, ¬ IntLit (utf8 w) v) ∧ (buildKey [st]).run ctx = .ok (ctx.getKey (utf8 w))) :=
+  lone_argument_lookup reg opt _ w (lone_body lead w trail hl hw ht).1 (lone_body lead w trail hl hw ht).2
+
+/-- **A lone quoted string** `{ "q" }`: the same rule applies to the text between the quotes – quoting does not
+    turn an integer into a key (`{"1"}` is group 1), `{"a b"}` looks up the key `a b`, and `{""}` (one empty
+    argument – not an empty statement) looks up the empty key. -/
+theorem lone_quoted_lookup (reg : Registry) (opt : Bool) (lead q trail : List Char)
+    (hl : allSpace lead = true) (hq : plain q = true) (ht : allSpace trail = true) :
+    ∃ st, compile reg opt ('{' :: (lead ++ ['"'] ++ q ++ ['"'] ++ trail ++ ['}'])) = .ok ([st], []) ∧
+      ∀ ctx, (∃ v, IntLit (utf8 q) v ∧ (buildKey [st]).run ctx = .ok (ctx.getMatch v)) ∨
+             ((∀ v, ¬ IntLit (utf8 q) v) ∧ (buildKey [st]).run ctx = .ok (ctx.getKey (utf8 q))) :=
+  lone_argument_lookup reg opt _ q (lone_quoted_body lead q trail hl hq ht).1 (lone_quoted_body lead q trail hl hq ht).2
+
+/-- **Seam with C02.**  Against a regex match context – any `ctx` whose `GetMatch` is C02's model of
+    `SliceSpaceExpressionContext.GetMatch` on an engine's index slice – the template `{n}` (decimal print of `n`,
+    any white space) evaluates to the text of capture group `n` of the leftmost match (`C02.specGroup`), empty
+    for a group that does not exist or did not participate. -/
+theorem lone_integer_is_regex_group (reg : Registry) (opt : Bool) (lead trail : List Char) (n : Nat)
+    (hl : allSpace lead = true) (ht : allSpace trail = true) (hn : (n : Int) ≤ maxInt64)
+    (line : Bytes) (indices : List Int) (hwf : C02.WF line indices)
+    (hlen : (indices.length : Int) < 4611686018427387904) (ctx : Ctx)
+    (hctx : ∀ i, minInt64 ≤ i ∧ i ≤ maxInt64 → C02.getMatch line indices i = .ok (ctx.getMatch i)) :
+    ∃ st, compile reg opt ('{' :: (lead ++ decimal n ++ trail ++ ['}'])) = .ok ([st], []) ∧
+      (buildKey [st]).run ctx = .ok (C02.specGroup line indices n) := by
+  obtain ⟨h1, h2⟩ := lone_body lead (decimal n) trail hl (bare_decimal n) ht
+  refine ⟨stageSimpleVariable (decimal n), compileF_lone _ reg opt h1 _ h2, ?_⟩
+  rw [run_simpleVariable, atoi_decimal n hn]
+  have hr : minInt64 ≤ (n : Int) ∧ (n : Int) ≤ maxInt64 := ⟨by unfold minInt64; omega, hn⟩
+  have := hctx n hr
+  rw [C02.getMatch_eq_spec line indices n hwf hlen hr] at this
+  exact this.symm
+
 /-! ### UTF-8: from Go strings to rune lists and back -/
 
 /-- `[]rune(string(rs)) = rs` for Unicode scalar values (everything but surrogates and values above
@@ -383,5 +448,27 @@ example : seqLen [0xC0, 0x80] = 0 ∧ seqLen [0xE0, 0x80, 0x80] = 0 ∧ seqLen [
 example : decodeUtf8 [0xF4, 0x90, 0x80, 0x80, 0x41, 0xE2, 0x82] = [0xFFFD, 0xFFFD, 0xFFFD, 0xFFFD, 0x41, 0xFFFD, 0xFFFD] := by
   decide
 example : wellFormed [0xED, 0xA0, 0x80] = false ∧ wellFormed [0xED, 0x9F, 0xBF] = true := by decide
+
+/-- `{007}` `{+1}` `{-1}` `{-0}` `{-9223372036854775808}` are integers … -/
+example : IntLit (ascii "007") 7 ∧ IntLit (ascii "+1") 1 ∧ IntLit (ascii "-1") (-1) ∧ IntLit (ascii "-0") 0 ∧
+    IntLit (ascii "-9223372036854775808") (-9223372036854775808) := by
+  refine ⟨(int_literal_spec _ _).mp ?_, (int_literal_spec _ _).mp ?_, (int_literal_spec _ _).mp ?_,
+    (int_literal_spec _ _).mp ?_, (int_literal_spec _ _).mp ?_⟩ <;> decide +kernel
+/-- … `{1e3}` `{0x10}` `{1_0}` `{9223372036854775808}` `{-}` `{+}` `{1.0}` `{ 1}`(with the space inside the word), the
+    Arabic-Indic digit three are not: they are key look-ups. -/
+example : ∀ b ∈ [ascii "1e3", ascii "0x10", ascii "1_0", ascii "9223372036854775808", ascii "-", ascii "+", ascii "1.0",
+    ascii " 1", ascii "--1", [0xD9, 0xA3], []], ∀ v, ¬ IntLit b v := by
+  intro b hb
+  apply (atoi_none_iff b).mp
+  revert b; decide +kernel
+/-- the hypotheses of `lone_integer_is_regex_group` are satisfiable: line "ab cd", match "b c" with group 1 = "c" -/
+example : C02.WF (ascii "ab cd") [1, 4, 3, 4] ∧ C02.specGroup (ascii "ab cd") [1, 4, 3, 4] 1 = ascii "c" ∧
+    C02.specGroup (ascii "ab cd") [1, 4, 3, 4] 0 = ascii "b c" ∧ C02.specGroup (ascii "ab cd") [1, 4, 3, 4] 2 = [] := by
+  refine ⟨?_, by decide +kernel, by decide +kernel, by decide +kernel⟩
+  intro k hk
+  have : k = 0 ∨ k = 1 := by simp at hk; omega
+  rcases this with rfl | rfl <;> decide +kernel
+example : splitArgs "{0}".toList = ["{0}".toList] ∧ Inner "{0}".toList :=
+  ⟨by decide, Inner.braces ['0'] [] (Inner.char '0' _ (by decide) Inner.nil) Inner.nil⟩
 
 end Rare.C09
